@@ -1,10 +1,43 @@
 package c06
 
 import (
+	"context"
 	"errors"
 	"fmt"
 	"time"
 )
+
+// Kinds of per-operation contexts (the kinds real callers pass). Every kind is
+// derived from hctx, so the commands of harness calls stay attributable.
+const (
+	ctxBG       = ""         // background context (never cancelled, no deadline)
+	ctxCancel   = "cancel"   // cancellable, cancelled right AFTER the call returned (what every HTTP/RPC request context does)
+	ctxDeadline = "deadline" // generous deadline (1 h), cancelled after the call returned
+	ctxValues   = "values"   // carries values (trace id, user), never cancelled
+	ctxPre      = "pre"      // cancelled BEFORE the call: the call may legitimately fail
+)
+
+type ctxKey struct{ name string }
+
+// opCtx builds the context of one call; after() is what the caller does once the call returned.
+func opCtx(kind, tag string) (ctx context.Context, after func()) {
+	switch kind {
+	case ctxCancel:
+		return context.WithCancel(hctx)
+	case ctxDeadline:
+		return context.WithTimeout(hctx, time.Hour)
+	case ctxValues:
+		return context.WithValue(context.WithValue(hctx, ctxKey{"trace"}, tag), ctxKey{"user"}, int64(42)), func() {}
+	case ctxPre:
+		c, cancel := context.WithCancel(hctx)
+		cancel()
+		return c, func() {}
+	}
+	return hctx, func() {}
+}
+
+// cancelledAfterReturn: the context of the op is dead once the op returned.
+func cancelledAfterReturn(kind string) bool { return kind == ctxCancel || kind == ctxDeadline }
 
 type op struct {
 	K    string        `json:"k"` // read index get set setexp write del ff dberr outage waitcleaner
@@ -18,9 +51,15 @@ type op struct {
 	Node int           `json:"node,omitempty"` // outage: -1 all nodes of the store
 	Kind string        `json:"kind,omitempty"` // outage kind, "" lifts
 	On   bool          `json:"on,omitempty"`   // dberr
+	Ctx  string        `json:"ctx,omitempty"`  // kind of the context the call runs under (API with context only)
 }
 
 func (o op) String() string {
+	if o.Ctx != ctxBG {
+		c := o.Ctx
+		o.Ctx = ctxBG
+		return o.String() + "@" + c
+	}
 	key := fmt.Sprintf("P%d", o.Slot)
 	if o.IsI {
 		key = "I(" + o.Name + ")"
@@ -151,7 +190,7 @@ func (h *hist) opRead(o op, written map[string]wr, mustAbsent map[string]string)
 	pre, cached := h.prev[key]
 	var got row
 	var err error
-	h.call(func() {
+	h.call(o, func() {
 		if o.Exp {
 			got, err = h.st.readExp(key, o.Slot)
 		} else {
@@ -165,6 +204,11 @@ func (h *hist) opRead(o op, written map[string]wr, mustAbsent map[string]string)
 	}
 	want := h.dbRow(o.Slot)
 	switch {
+	case h.preCancelled(o, err):
+		// the context was dead before the call: failing is legitimate; nothing may be cached from it
+		if !cached {
+			mustAbsent[key] = "C06/ctx/cached-from-cancelled-call/read"
+		}
 	case st.node.getFails():
 		kind := st.node.outage()
 		h.outageReads++
@@ -238,7 +282,7 @@ func (h *hist) opGet(o op) {
 	var got row
 	var gotAny any
 	var err error
-	h.call(func() {
+	h.call(o, func() {
 		if o.IsI {
 			err = h.st.get(key, &gotAny)
 		} else {
@@ -247,6 +291,7 @@ func (h *hist) opGet(o op) {
 	})
 	res := map[string]any{"key": key, "result": resStr(fmt.Sprint(got, gotAny), err)}
 	switch {
+	case h.preCancelled(o, err):
 	case st.node.getFails():
 		if err == nil {
 			h.viol("C06/outage/get-succeeded/"+st.node.outage(), "Get returned no error although the cache store fails", res)
@@ -293,7 +338,7 @@ func (h *hist) opSet(o op, written map[string]wr) {
 		}
 	}
 	var err error
-	h.call(func() {
+	h.call(o, func() {
 		if o.K == "setexp" {
 			err = h.st.setExp(key, val, o.D)
 		} else {
@@ -301,6 +346,9 @@ func (h *hist) opSet(o op, written map[string]wr) {
 		}
 	})
 	res := map[string]any{"key": key, "value": fmt.Sprint(val), "result": resStr("ok", err)}
+	if h.preCancelled(o, err) {
+		return // legitimately refused; a key that changed nevertheless is met by the TTL checks of the scan
+	}
 	if st.node.setFails() {
 		if err == nil {
 			h.viol("C06/outage/set-succeeded/"+st.node.outage(), "explicit set returned no error although the cache store fails", res)
@@ -341,8 +389,10 @@ func (h *hist) opWrite(o op, mustAbsent map[string]string) {
 	}
 	v0 := h.db.version
 	fail := h.db.fail && o.K == "write"
+	// a database refuses to work under a dead context: Exec returns that error, nothing was written
+	dead := o.K == "write" && o.Ctx == ctxPre && !h.cfg.NoCtx
 	var err error
-	h.call(func() {
+	h.call(o, func() {
 		if o.K == "write" {
 			err = h.st.write(mut, fail, keys...)
 		} else {
@@ -351,7 +401,7 @@ func (h *hist) opWrite(o op, mustAbsent map[string]string) {
 	})
 	res := map[string]any{"keys": keys, "result": resStr("ok", err)}
 	expected := map[string]int{}
-	if !fail {
+	if !fail && !dead {
 		for _, k := range keys {
 			if !h.state(k).node.setFails() {
 				expected[k]++
@@ -359,6 +409,16 @@ func (h *hist) opWrite(o op, mustAbsent map[string]string) {
 		}
 	}
 	h.absorbDels(expected)
+	if dead {
+		h.c.Obs("precancelled_calls_failed", 1)
+		if !errors.Is(err, context.Canceled) {
+			h.viol("C06/dberr/not-returned/exec", "the database refused the write (context cancelled before the call) but Exec returned "+resStr("ok", err), res)
+		}
+		if h.db.version != v0 {
+			panic("harness: refused write mutated the database")
+		}
+		return
+	}
 	if fail {
 		if !errors.Is(err, errDB) {
 			h.viol("C06/dberr/not-returned/exec", "write during a database failure returned "+resStr("ok", err), res)
@@ -378,6 +438,11 @@ func (h *hist) opWrite(o op, mustAbsent map[string]string) {
 			h.fault++
 			h.taintAt = time.Now()
 			h.c.Obs("failed_invalidations", 1)
+			if cancelledAfterReturn(o.Ctx) && !h.cfg.NoCtx {
+				// the retry has to happen although the caller's context is dead by then
+				h.taintCtxDead = true
+				h.c.Obs("failed_invalidations_ctx_cancelled_after_return", 1)
+			}
 			continue
 		}
 		if _, was := h.prev[k]; was {
@@ -385,4 +450,15 @@ func (h *hist) opWrite(o op, mustAbsent map[string]string) {
 		}
 		mustAbsent[k] = "C06/invalidate/key-survived/" + o.K
 	}
+}
+
+// preCancelled: the op ran under a context that was cancelled before the call
+// and reported exactly that. Everything else (a result, another error) is
+// judged like the outcome of an ordinary call.
+func (h *hist) preCancelled(o op, err error) bool {
+	if o.Ctx != ctxPre || h.cfg.NoCtx || err == nil || !errors.Is(err, context.Canceled) {
+		return false
+	}
+	h.c.Obs("precancelled_calls_failed", 1)
+	return true
 }
